@@ -89,7 +89,9 @@ class ScriptConn(refdc.Conn):
                     self.slog["bind_vector"] = vec if act[0] == "ack" else None
                     self.slog["client_sign_flag"] = bool(d["flags"] & rpc.PFC_SIGN)
                 auth = dict(type=a["type"], level=a["level"], ctx=a["ctx"], token=tok) if tok is not None else None
-                return rpc.enc_ack_like(right if act[0] == "ack" else wrong, flags, d["call_id"], res, auth, b"49664\x00" if pt == rpc.BIND else b"")
+                # secondary address of every length residue mod 4 (5-, 4-, 2- and 3-digit ports), by script position
+                sec_addr = (b"49664\x00", b"5000\x00", b"99\x00", b"135\x00")[(self.ack_no + len(tok or b"")) % 4]
+                return rpc.enc_ack_like(right if act[0] == "ack" else wrong, flags, d["call_id"], res, auth, sec_addr if pt == rpc.BIND else b"")
             # a server that refuses a bind tears the connection down right after its answer: the client's shutdown() then meets ENOTCONN
             self.torn_down = True
             if act[0] == "nak":
